@@ -2,6 +2,8 @@
 // equal the digests of a sequential execution of the same per-thread operation lists).
 #include <atomic>
 #include <cstdint>
+#include <cstring>
+#include <limits>
 #include <thread>
 #include <variant>
 #include <vector>
@@ -16,6 +18,7 @@
 #include <covfie/core/field.hpp>
 #include <covfie/core/field_view.hpp>
 
+#include "refs.hpp"
 #include "vh.hpp"
 
 namespace cb = covfie::backend;
@@ -354,9 +357,194 @@ static void two_fields(const std::string & oname, unsigned T, unsigned rep, uint
     vh::sample(nm, "T=" + std::to_string(T) + " two fields (16^N and 5x12x7) overlapping pairs=" + std::to_string(pairs) + " digests equal sequential", 1);
 }
 
+// ------------------------------------------------------------------ cold start
+// The very FIRST lookups a process makes through a given instantiation happen in T threads at once (a field
+// loaded or allocated on the main thread and handed to a pool): one-time initialisation hidden in the lookup
+// path (a lazily probed CPU feature, a lazily built table) is only racy at that moment.  The field is filled
+// straight through the array backend and the expected values come from the reference index formulas, so that
+// nothing warms the instantiation up before the threads run.  Each call must use an instantiation (coordinate
+// type) no other part of this program uses.
+enum { K_STRIDED, K_MORTON, K_HILBERT };
+template <typename ORDER, int INTERP, std::size_t N, int KIND>
+static void cold_start(const std::string & nm0, unsigned T, uint64_t seed)
+{
+    using B = typename stack_of<ORDER, INTERP, false, N>::type;
+    using F = covfie::field<B>;
+    using V = typename F::view_t;
+    using arr_t = typename ORDER::backend_t;
+    const std::string nm = "cold-start/" + std::string(iname[INTERP]) + nm0;
+    vh::set_case("%s T=%u", nm.c_str(), T);
+    const std::size_t E = N == 3 ? 8 : 16;
+    covfie::utility::nd_size<N> ext;
+    std::size_t len = 1;
+    for (std::size_t k = 0; k < N; ++k) {
+        ext[k] = E;
+        len *= E;
+    }
+    F f = [&] {
+        if constexpr (INTERP != I_NONE)
+            return F(covfie::make_parameter_pack(std::monostate{}, typename ORDER::configuration_t(ext), covfie::utility::nd_size<1>{len}));
+        else
+            return F(covfie::make_parameter_pack(typename ORDER::configuration_t(ext), covfie::utility::nd_size<1>{len}));
+    }();
+    const typename arr_t::owning_data_t * arr;
+    if constexpr (INTERP != I_NONE)
+        arr = &f.backend().get_backend().get_backend();
+    else
+        arr = &f.backend().get_backend();
+    {
+        typename arr_t::non_owning_data_t av(*arr);
+        for (std::size_t i = 0; i < len; ++i)
+            for (std::size_t j = 0; j < 3; ++j) av.at(i)[j] = (float)((i * 3 + j) % 4093);
+    }
+    auto ref_index = [&](const uint64_t * c) -> uint64_t {
+        uint64_t e[N];
+        for (std::size_t k = 0; k < N; ++k) e[k] = E;
+        if (KIND == K_STRIDED) return (uint64_t)ref::rowmajor(c, e, N);
+        if (KIND == K_MORTON) return (uint64_t)ref::morton(c, N);
+        // Hilbert: invert the published d -> (x, y) walk
+        for (uint64_t d = 0; d < E * E; ++d) {
+            uint64_t x, y;
+            ref::hilbert_d2xy(E, d, x, y);
+            if (x == c[0] && y == c[1]) return d;
+        }
+        return 0;
+    };
+    V shared(f);
+    std::vector<uint64_t> bad(T, 0);
+    std::vector<std::thread> th;
+    std::atomic<unsigned> go{0};
+    for (unsigned t = 0; t < T; ++t)
+        th.emplace_back([&, t] {
+            vh::Rng rng(seed * 977 + t);
+            go.fetch_add(1, std::memory_order_relaxed);
+            while (go.load(std::memory_order_relaxed) < T) {
+            }
+            for (unsigned i = 0; i < 400; ++i) {
+                uint64_t c[N];
+                typename F::coordinate_t cc;
+                for (std::size_t k = 0; k < N; ++k) {
+                    c[k] = rng.below(E - 1);
+                    cc[k] = (typename B::contravariant_input_t::scalar_t)c[k];  // lattice points: exact under either interpolator
+                }
+                typename F::output_t r = shared.at(cc);
+                uint64_t idx = ref_index(c);
+                for (std::size_t j = 0; j < 3; ++j)
+                    if (r[j] != (float)((idx * 3 + j) % 4093)) ++bad[t];
+            }
+        });
+    for (auto & t : th) t.join();
+    vh::ev((uint64_t)T * 400);
+    vh::stat("threads_started", T);
+    vh::stat("cold_start_scenarios");
+    for (unsigned t = 0; t < T; ++t)
+        if (bad[t]) vh::viol("digest:" + nm, "thread " + std::to_string(t) + ": " + std::to_string(bad[t]) + " values differ from the reference during the first concurrent lookups");
+    vh::sample(nm, "T=" + std::to_string(T) + " threads made the process's first lookups through this instantiation concurrently", 1);
+}
+
+// ------------------------------------------------------------------ early pool
+// Worker threads that exist BEFORE the field and its view are made (a long-lived pool): the view is published
+// to them with a release store.  Per-thread state that building a view leaves behind in the constructing thread
+// (floating-point control flags, thread-locals) then differs between the workers and the thread that computed
+// the sequential reference.  Stored values include float subnormals.
+template <typename ORDER, int INTERP, std::size_t N>
+static void early_pool(const std::string & oname, unsigned T, uint64_t seed)
+{
+    using B = typename stack_of<ORDER, INTERP, false, N>::type;
+    using F = covfie::field<B>;
+    using V = typename F::view_t;
+    const std::string nm = std::string("early-pool/") + iname[INTERP] + oname;
+    vh::set_case("%s T=%u", nm.c_str(), T);
+    const std::size_t E = N == 3 ? 8 : 16;
+    const unsigned nops = 600;
+    std::atomic<const V *> published{nullptr};
+    std::vector<std::vector<float>> ops(T);
+    for (unsigned t = 0; t < T; ++t) {
+        vh::Rng rng(seed * 31337 + t);
+        ops[t].resize(nops * N);
+        for (auto & x : ops[t]) x = INTERP == I_NONE ? (float)rng.below(E - 1) : (float)(rng.unit() * (double)(E - 2));
+    }
+    std::vector<std::vector<uint32_t>> got(T);
+    auto run_ops = [&](const V & v, unsigned t, std::vector<uint32_t> & out) {
+        for (unsigned i = 0; i < nops; ++i) {
+            typename F::coordinate_t c;
+            for (std::size_t k = 0; k < N; ++k) {
+                if constexpr (INTERP == I_NONE)
+                    c[k] = (std::size_t)ops[t][i * N + k];
+                else
+                    c[k] = ops[t][i * N + k];
+            }
+            typename F::output_t r = v.at(c);
+            for (std::size_t j = 0; j < 3; ++j) {
+                float val = r[j];
+                uint32_t bits;
+                std::memcpy(&bits, &val, 4);
+                out.push_back(bits);
+            }
+        }
+    };
+    std::vector<std::thread> th;
+    for (unsigned t = 0; t < T; ++t)
+        th.emplace_back([&, t] {
+            const V * v;
+            while (!(v = published.load(std::memory_order_acquire))) std::this_thread::yield();
+            run_ops(*v, t, got[t]);
+        });
+    // only now: field, fill (ordinary values in components 0-1, float subnormals in component 2), view, sequential reference
+    covfie::utility::nd_size<N> ext;
+    std::size_t len = 1;
+    for (std::size_t k = 0; k < N; ++k) {
+        ext[k] = E;
+        len *= E;
+    }
+    F f = [&] {
+        if constexpr (INTERP != I_NONE)
+            return F(covfie::make_parameter_pack(std::monostate{}, typename ORDER::configuration_t(ext), covfie::utility::nd_size<1>{len}));
+        else
+            return F(covfie::make_parameter_pack(typename ORDER::configuration_t(ext), covfie::utility::nd_size<1>{len}));
+    }();
+    {
+        const typename ORDER::owning_data_t * od;
+        if constexpr (INTERP != I_NONE)
+            od = &f.backend().get_backend();
+        else
+            od = &f.backend();
+        typename ORDER::non_owning_data_t raw(*od);
+        uint64_t c[N] = {};
+        for (uint64_t id = 0;; ++id) {
+            typename ORDER::contravariant_input_t::vector_t cc;
+            for (std::size_t k = 0; k < N; ++k) cc[k] = c[k];
+            for (std::size_t j = 0; j < 3; ++j)
+                raw.at(cc)[j] = (j == 2) ? std::numeric_limits<float>::denorm_min() * (float)(1 + (id * 7 + j) % 5000) : (float)((id * 3 + j) % 977);  // component 2 lives in the subnormal range everywhere
+            std::size_t k = 0;
+            while (k < N && ++c[k] >= E) c[k++] = 0;
+            if (k == N) break;
+        }
+    }
+    V view(f);
+    std::vector<std::vector<uint32_t>> want(T);
+    for (unsigned t = 0; t < T; ++t) run_ops(view, t, want[t]);
+    published.store(&view, std::memory_order_release);
+    for (auto & t : th) t.join();
+    vh::ev((uint64_t)T * nops);
+    vh::stat("threads_started", T);
+    vh::stat("early_pool_scenarios");
+    for (unsigned t = 0; t < T; ++t)
+        if (got[t] != want[t]) {
+            size_t i = 0;
+            while (i < got[t].size() && got[t][i] == want[t][i]) ++i;
+            char buf[160];
+            std::snprintf(buf, sizeof buf, "pool thread %u (started before the view was built): value #%zu has bits 0x%08x, the sequential execution obtained 0x%08x", t, i, got[t][i], want[t][i]);
+            vh::viol("digest:" + nm, buf);
+            break;
+        }
+    vh::sample(nm, "T=" + std::to_string(T) + " workers started before the field existed; values incl. float subnormals equal the sequential run bit for bit", 1);
+}
+
 template <typename ORDER, std::size_t N>
 static void all_stacks(const std::string & oname, uint64_t seed, unsigned R)
 {
+
     for (unsigned rep = 0; rep < R; ++rep)
         for (unsigned T : {2u, 6u, 16u}) {
             two_fields<ORDER, I_NONE, N>(oname, T, rep, seed);
@@ -383,6 +571,41 @@ int main(int argc, char ** argv)
     uint64_t seed = vh::st().seed;
     unsigned R = vh::st().thorough ? 20 : 3;
     using arr3 = cb::array<cv::float3>;
+    // early pools come first of all: their workers must predate every view this process ever builds (a thread inherits
+    // the floating-point control state of its creator, so state left behind by an earlier view would be inherited too)
+#if defined(SH_STRIDED)
+    early_pool<cb::strided<cv::size3, arr3>, I_LINEAR, 3>("strided", 6, seed);
+    early_pool<cb::strided<cv::size3, arr3>, I_NN, 3>("strided", 4, seed);
+    early_pool<cb::strided<cv::size3, arr3>, I_NONE, 3>("strided", 4, seed);
+#endif
+#if defined(SH_MORTON)
+    early_pool<cb::morton<cv::size3, arr3, true>, I_LINEAR, 3>("morton<use_bmi2=true>", 6, seed);
+    early_pool<cb::morton<cv::size3, arr3, false>, I_NN, 3>("morton<use_bmi2=false>", 4, seed);
+    early_pool<cb::morton<cv::size3, arr3, true>, I_NONE, 3>("morton<use_bmi2=true>", 4, seed);
+#endif
+#if defined(SH_HILBERT)
+    early_pool<cb::hilbert<cv::size2, arr3>, I_LINEAR, 2>("hilbert", 6, seed);
+    early_pool<cb::hilbert<cv::size2, arr3>, I_NN, 2>("hilbert", 4, seed);
+    early_pool<cb::hilbert<cv::size2, arr3>, I_NONE, 2>("hilbert", 4, seed);
+#endif
+    // cold starts next, each on an instantiation of its own (coordinate types nothing else here uses)
+#if defined(SH_STRIDED)
+    cold_start<cb::strided<cv::vector_d<unsigned, 3>, arr3>, I_NONE, 3, K_STRIDED>("strided<unsigned>", 8, seed);
+    cold_start<cb::strided<cv::vector_d<int, 3>, arr3>, I_LINEAR, 3, K_STRIDED>("strided<int>", 8, seed);
+    cold_start<cb::strided<cv::vector_d<long, 3>, arr3>, I_NN, 3, K_STRIDED>("strided<long>", 8, seed);
+#endif
+#if defined(SH_MORTON)
+    cold_start<cb::morton<cv::vector_d<unsigned, 3>, arr3, true>, I_NONE, 3, K_MORTON>("morton<unsigned,true>", 8, seed);
+    cold_start<cb::morton<cv::vector_d<int, 3>, arr3, true>, I_LINEAR, 3, K_MORTON>("morton<int,true>", 8, seed);
+    cold_start<cb::morton<cv::vector_d<long, 3>, arr3, true>, I_NN, 3, K_MORTON>("morton<long,true>", 8, seed);
+    cold_start<cb::morton<cv::vector_d<unsigned, 3>, arr3, false>, I_NONE, 3, K_MORTON>("morton<unsigned,false>", 8, seed);
+    cold_start<cb::morton<cv::vector_d<int, 3>, arr3, false>, I_LINEAR, 3, K_MORTON>("morton<int,false>", 8, seed);
+#endif
+#if defined(SH_HILBERT)
+    cold_start<cb::hilbert<cv::vector_d<unsigned, 2>, arr3>, I_NONE, 2, K_HILBERT>("hilbert<unsigned>", 8, seed);
+    cold_start<cb::hilbert<cv::vector_d<int, 2>, arr3>, I_LINEAR, 2, K_HILBERT>("hilbert<int>", 8, seed);
+    cold_start<cb::hilbert<cv::vector_d<long, 2>, arr3>, I_NN, 2, K_HILBERT>("hilbert<long>", 8, seed);
+#endif
 #if defined(SH_STRIDED)
     all_stacks<cb::strided<cv::size3, arr3>, 3>("strided", seed, R);
 #endif
